@@ -93,14 +93,47 @@ extern size_t g_k; /* ghost byte index */
  * about output *bytes*): the proved contract minus its byte clause; the eight output bytes are not in the
  * frame of this abstraction, but that they exist and are writable stays a precondition checked at
  * every call site (is_fresh(m_out_buf, 8)), as does "the bits fit". */
+/* Meaning of the codes of the pre-computed constant-run block (igzip/repeated_char_result.h).  Derived by
+ * parsing repeated_char_header[] as an RFC 1951 dynamic block header (3.2.7) with an independent parser:
+ * HLIT = 286, HDIST = 1, 126 header bits followed by the 2-bit code of the literal (the first byte of the run);
+ * literal/length code lengths: literal c (0x00 resp. 0xff) 2 bits, 256 (end of block) 4 bits, 264 3 bits,
+ * 280 4 bits, 285 1 bit; the only distance symbol 0 (distance 1) has a 1-bit code.  Canonical codes, written
+ * LSB first into the bit buffer:
+ *     literal c      -> value 0x1, 2 bits                                  = CODE_LIT        : 1 byte
+ *     264 + dist 0   -> 0x3 (3 bits) then 0          : 0x3, 4 bits         = CODE_10         : length 10 (RFC 3.2.5:
+ *                                                                                               257..264 = 3..10)
+ *     280 + e + dist -> 0xf (4 bits), e (4 extra bits), 0 : 0xf | e<<4, 9 bits = CODE_280    : length 115 + e
+ *                                                                                               (277..280: 4 extra
+ *                                                                                               bits, 280 = 115..130)
+ *     285 + dist 0   -> 0, 0                         : two zero bits                         : length 258
+ *     256            -> 0x7, 4 bits                                        = END_OF_BLOCK    : 0 bytes
+ * w_run accumulates the bytes denoted by the codes passed to write_bits, w_runbits their bit count, w_run_bad
+ * is set by any other (code, count). */
+extern uint32_t w_run, w_runbits, w_run_bad;
+#define RUN_IS_LIT(c, n) ((c) == 0x1 && (n) == 2)
+#define RUN_IS_10(c, n) ((c) == 0x3 && (n) == 4)
+#define RUN_IS_280(c, n) ((n) == 9 && ((c) & 0xf) == 0xf && ((c) >> 8) == 0)
+#define RUN_IS_EOB(c, n) ((c) == 0x7 && (n) == 4)
+#define RUN_KNOWN(c, n) (RUN_IS_LIT(c, n) || RUN_IS_10(c, n) || RUN_IS_280(c, n) || RUN_IS_EOB(c, n))
+#define RUN_MEANING(c, n)                                                                          \
+        (RUN_IS_LIT(c, n) ? 1u : (RUN_IS_10(c, n) ? 10u : (RUN_IS_280(c, n) ? 115u + (uint32_t) (((c) >> 4) & 0xf) : 0u)))
 #ifdef DF_WB_COARSE
 #define C_write_bits                                                                               \
         __CPROVER_requires(__CPROVER_is_fresh(me, sizeof(*me)))                                    \
         __CPROVER_requires(me->m_bit_count <= 63 && count <= 63 - me->m_bit_count)                 \
+        __CPROVER_requires((me->m_bits >> me->m_bit_count) == 0)                                   \
+        __CPROVER_requires(count == 0 ? code == 0 : (code >> count) == 0)                          \
         __CPROVER_requires(__CPROVER_is_fresh(me->m_out_buf, 8))                                   \
-        __CPROVER_assigns(me->m_bits, me->m_bit_count, me->m_out_buf)                              \
+        __CPROVER_assigns(me->m_bits, me->m_bit_count, me->m_out_buf, w_run, w_runbits, w_run_bad) \
+        /* pointer_in_range_dfcc places the havocked pointer by assignment (DESIGN 4.2); with a bare     \
+         * equality the next call's is_fresh(m_out_buf, 8) cannot be resolved and the path is lost */     \
+        __CPROVER_ensures(__CPROVER_pointer_in_range_dfcc(BB_OUT, me->m_out_buf, BB_OUT + 8))      \
         __CPROVER_ensures(me->m_out_buf == BB_OUT + BBN / 8)                                       \
-        __CPROVER_ensures(me->m_bit_count == BBN % 8)                                              \
+        __CPROVER_ensures(me->m_bit_count == BBN % 8 && me->m_bits == (BBV >> (8 * (BBN / 8))))    \
+        /* ghost interpretation of what was appended (constant-run block, see RUN_MEANING) */     \
+        __CPROVER_ensures(w_runbits == OLD(w_runbits) + count &&                                   \
+                          w_run == OLD(w_run) + RUN_MEANING(code, count) &&                        \
+                          w_run_bad == (OLD(w_run_bad) || !RUN_KNOWN(code, count) ? 1u : 0u))      \
         __CPROVER_ensures(me->m_out_start == OLD(me->m_out_start) && me->m_out_end == OLD(me->m_out_end))
 #else
 #define C_write_bits                                                                               \
@@ -296,6 +329,10 @@ extern size_t g_len;
          OUT0[(n) + 1] == BYTE(SPEC_ADLER_FIN(O_CRC), 2) &&                                       \
          OUT0[(n) + 2] == BYTE(SPEC_ADLER_FIN(O_CRC), 1) &&                                       \
          OUT0[(n) + 3] == BYTE(SPEC_ADLER_FIN(O_CRC), 0))
+extern uint32_t w_trl_calls, w_trl_crc;
+#define E_write_trailer                                                                            \
+        w_trl_calls++;                                                                             \
+        w_trl_crc = stream->internal_state.crc;
 #ifdef DF_TRAILER_GE8
 #define TR_EXTRA_REQ __CPROVER_requires(stream->avail_out >= 8)
 #else
@@ -308,7 +345,10 @@ extern size_t g_len;
         __CPROVER_requires(ST.state == ZSTATE_TRL && ST.has_eob_hdr <= 1)                          \
         __CPROVER_requires(__CPROVER_is_fresh(stream->next_out, stream->avail_out))                \
         __CPROVER_assigns(stream->next_out, stream->avail_out, stream->total_out, BB, ST.state,    \
-                          ST.has_eob_hdr, __CPROVER_object_whole(stream->next_out))                \
+                          ST.has_eob_hdr, w_trl_calls, w_trl_crc,                                  \
+                          __CPROVER_object_whole(stream->next_out))                                \
+        /* ghost record: the running checksum this call was made with (callers state that it is final) */ \
+        __CPROVER_ensures(w_trl_calls == OLD(w_trl_calls) + 1 && w_trl_crc == O_CRC)               \
         /* counters move together and never past the space offered */                              \
         __CPROVER_ensures(stream->avail_out <= O_AVAIL && ADV_IS(TR_ADV))                         \
         __CPROVER_ensures(ST.state == ZSTATE_END || ST.state == ZSTATE_TRL)                        \
@@ -337,7 +377,9 @@ extern size_t g_len;
         __CPROVER_ensures((TR_DONE && TR_ZL && TR_NBY == 2) ==> TR_ZL_AT(2))                       \
         __CPROVER_ensures((TR_DONE && TR_ZL && TR_NBY == 3) ==> TR_ZL_AT(3))                       \
         /* progress: with the slop the bit writer needs, the trailer is completed now */           \
-        __CPROVER_ensures(O_AVAIL >= TR_NBY + 8 ==> TR_DONE)
+        __CPROVER_ensures(O_AVAIL >= TR_NBY + 8 ==> TR_DONE)                                       \
+        /* nothing pending (byte boundary, final block already marked): the trailer needs just its own size */ \
+        __CPROVER_ensures((TR_NBY == 0 && O_AVAIL >= TR_T) ==> TR_DONE)
 
 /* update_checksum: gzip flags -> CRC-32 routine, zlib flags -> Adler routine, exactly one call over
  * exactly (running value, start_in, length); result becomes the running value; raw deflate: no call.
@@ -725,6 +767,13 @@ extern uint64_t w_bits;
         __CPROVER_ensures(SB_FIN_STATE ==> ST.block_next == ST.block_end)                          \
         __CPROVER_ensures(ST.state == ZSTATE_TRL ==> ST.has_eob_hdr == 1)                          \
         __CPROVER_ensures(ST.state == ZSTATE_NEW_HDR ==> ST.has_eob_hdr == 0)                      \
+        /* entered at a block header: the block ends the stream (BFINAL, ZSTATE_TRL) iff end_of_stream is  \
+         * set and no input lies beyond the block */                                               \
+        __CPROVER_ensures((O_ST == ZSTATE_TYPE0_HDR && SB_FIN_STATE) ==>                           \
+                          ((ST.state == ZSTATE_TRL) == (O_EOS != 0 && SB_INTOT == (uint64_t) SB_REM))) \
+        /* ... and the bit buffer is empty: every stored-block header ends on a byte boundary */   \
+        __CPROVER_ensures((O_ST == ZSTATE_TYPE0_HDR && SB_FIN_STATE) ==>                           \
+                          (BB.m_bit_count == 0 && BB.m_bits == 0))                                 \
         /* only for want of output space (header) / of space or input (body) */                   \
         __CPROVER_ensures(ST.state == ZSTATE_TYPE0_HDR ==>                                         \
                           (!T0_FITS(BB.m_bit_count, stream->avail_out) && ST.has_eob_hdr == 0))    \
@@ -969,8 +1018,12 @@ extern uint32_t g_av0;
         __CPROVER_assigns(stream->next_in, stream->avail_in, stream->total_in, stream->next_out,   \
                           stream->avail_out, stream->total_out, ST.state, ST.count, ST.has_eob_hdr, \
                           ST.has_eob, ST.has_hist, BB, ST.crc, w_crc_init, w_crc_len, w_crc_buf,   \
-                          w_crc_calls, w_ad_init, w_ad_len, w_ad_buf, w_ad_calls,                  \
-                          __CPROVER_object_whole(stream->next_out))                                \
+                          w_crc_calls, w_ad_init, w_ad_len, w_ad_buf, w_ad_calls, w_trl_calls,     \
+                          w_trl_crc, __CPROVER_object_whole(stream->next_out))                     \
+        /* order: a trailer is written only after the checksum of this call's input has been folded in -- \
+         * the value the trailer call saw is the final running value */                            \
+        __CPROVER_ensures(w_trl_calls != OLD(w_trl_calls) ==>                                      \
+                          (w_trl_calls == OLD(w_trl_calls) + 1 && w_trl_crc == ST.crc))            \
         /* checksum: the routine selected by the wrapper, once, over exactly what this call consumed */ \
         __CPROVER_ensures(TR_GZ ==> (CK_CRC_CALLS == 1 && CK_AD_CALLS == 0 && w_crc_init == O_CRC && \
                                      w_crc_buf == OLD(stream->next_in) &&                          \
@@ -1017,6 +1070,7 @@ extern uint32_t w_int_calls, w_cap, g_int_ret;
 #define SL_VALID (SL_FLUSH_OK && SL_LVL_OK)
 #define SL_CALLS (w_int_calls - OLD(w_int_calls))
 #define SL_PRODUCED (stream->total_out - O_TOTAL)
+#if !defined(DF_INT_SL)
 #define C_isal_deflate_int_stateless                                                               \
         __CPROVER_assigns(stream->next_out, stream->avail_out, stream->total_out, stream->next_in, \
                           stream->avail_in, stream->total_in, stream->gzip_flag, ST.state,         \
@@ -1032,6 +1086,7 @@ extern uint32_t w_int_calls, w_cap, g_int_ret;
         __CPROVER_ensures(RET == COMP_OK ==>                                                       \
                           (ST.state == ZSTATE_END ||                                               \
                            (ST.state == ZSTATE_NEW_HDR && stream->flush == FULL_FLUSH)))
+#endif
 extern int g_lb_present;
 #if defined(DF_SL_A)
 /* variant A: every path except the stored fallback */
@@ -1048,11 +1103,30 @@ extern int g_lb_present;
                            stream->avail_out >= SL_BOUND_OF(stream->avail_in, stream->gzip_flag) && \
                            stream->gzip_flag <= IGZIP_ZLIB_NO_HDR && stream->hist_bits <= 15 &&    \
                            ((stream->gzip_flag == IGZIP_ZLIB || stream->gzip_flag == IGZIP_ZLIB_NO_HDR) ==> 1))
+#elif defined(DF_SL_C)
+/* variant C: the stored fallback end to end (attempt failed, space >= SL_BOUND), NO_FLUSH (the call ends the
+ * stream); write_stored_block, write_stream_header_stateless, write_trailer, update_checksum through their
+ * proved contracts */
+#define SL_SHAPE                                                                                   \
+        __CPROVER_requires((int) g_int_ret != COMP_OK && stream->flush == NO_FLUSH &&              \
+                           stream->avail_out >= SL_BOUND_OF(stream->avail_in, stream->gzip_flag) && \
+                           stream->gzip_flag <= IGZIP_ZLIB_NO_HDR && stream->hist_bits <= 15 &&    \
+                           ST.has_wrap_hdr == 0)
 #else
 #define SL_SHAPE
 #endif
 #define SL_TRL (TR_GZ ? 8u : (TR_ZL ? 4u : 0u))
 #define SL_FB (SL_VALID && (int) g_int_ret != COMP_OK && O_AVAIL >= SL_BOUND)
+/* ghost set-up for the contract of write_stored_block when it is used by replacement (variant C): base of the
+ * readable input and the iteration counter */
+#if defined(DF_SL_C)
+#define E_isal_deflate_stateless                                                                   \
+        g_in = stream->next_in;                                                                    \
+        w_nblk = 0;
+#define SL_GHOST_FRAME , g_in, g_out, g_av0, w_nblk, w_base, w_bn, w_hdr, w_bc, w_av, w_bits
+#else
+#define SL_GHOST_FRAME
+#endif
 #define C_isal_deflate_stateless                                                                   \
         __CPROVER_requires(__CPROVER_is_fresh(stream, sizeof(*stream)))                            \
         __CPROVER_requires((RMH_LVLN && g_lb_present) ==>                                          \
@@ -1066,7 +1140,8 @@ extern int g_lb_present;
         SL_SHAPE                                                                                   \
         __CPROVER_assigns(__CPROVER_object_whole(stream), __CPROVER_object_whole(stream->next_out), \
                           w_int_calls, w_cap, w_crc_init, w_crc_len, w_crc_buf, w_crc_calls,       \
-                          w_ad_init, w_ad_len, w_ad_buf, w_ad_calls;                               \
+                          w_ad_init, w_ad_len, w_ad_buf, w_ad_calls, w_trl_calls, w_trl_crc        \
+                          SL_GHOST_FRAME;                                                          \
                           RMH_LVLN && g_lb_present: __CPROVER_object_whole(stream->level_buf)) \
         __CPROVER_ensures(!SL_FLUSH_OK ==> RET == INVALID_FLUSH)                                   \
         __CPROVER_ensures((SL_FLUSH_OK && !SL_LVL_OK) ==>                                          \
@@ -1088,6 +1163,15 @@ extern int g_lb_present;
                                      stream->total_in == O_TIN + O_AIN))                           \
         __CPROVER_ensures(SL_FB ==> (ADV_IS(SL_PRODUCED) &&                                        \
                                      SL_PRODUCED == SL_BOUND - (stream->end_of_stream ? 0u : SL_TRL))) \
+        /* the checksum is restarted and taken over the whole input of this call */                \
+        __CPROVER_ensures((SL_FB && TR_GZ) ==>                                                     \
+                          (CK_CRC_CALLS == 1 && w_crc_init == 0 && w_crc_buf == OLD(stream->next_in) && \
+                           w_crc_len == O_AIN))                                                    \
+        __CPROVER_ensures((SL_FB && TR_ZL) ==>                                                     \
+                          (CK_AD_CALLS == 1 && w_ad_init == SPEC_ADLER_FIN(0) &&                   \
+                           w_ad_buf == OLD(stream->next_in) && w_ad_len == O_AIN))                 \
+        __CPROVER_ensures((SL_FB && stream->end_of_stream) ==>                                     \
+                          (w_trl_calls == OLD(w_trl_calls) + 1 && w_trl_crc == ST.crc))            \
         __CPROVER_ensures((SL_FB && stream->end_of_stream) ==> ST.state == ZSTATE_END)             \
         __CPROVER_ensures((SL_FB && !stream->end_of_stream) ==>                                    \
                           (ST.state == ZSTATE_NEW_HDR && BB.m_bit_count == 0))
@@ -1184,9 +1268,29 @@ extern int g_lb_present;
 #define CC_NEED (16u + 8u + CC_REPBYTES + 8u)
 #define CC_FITS (O_AVAIL >= CC_NEED)
 #define CC_FINAL (O_AIN == repeated_length && O_EOS > 0)
+/* ghost record of the call (read by the contract of isal_deflate_int_stateless) */
+extern uint32_t w_cc_calls, w_cc_len;
+#define E_write_constant_compressed_stateless                                                      \
+        w_cc_calls++;                                                                              \
+        w_cc_len = repeated_length;
+/* -DDF_CC_SMALL: bounded stand-in for the meaning clause -- the tail codes depend only on
+ * rep_extra = (repeated_length - 1) % 258, which is covered exhaustively; the number q of 258-byte repeats
+ * in front of it is bounded (q <= 2) */
+#if defined(DF_CC_SMALL) && defined(DF_CC_HI)
+#define CC_SMALL __CPROVER_requires(repeated_length <= 1u + 258u * 2u + 257u && (repeated_length - 1) % 258 > 115)
+#elif defined(DF_CC_SMALL) && defined(DF_CC_LO)
+#define CC_SMALL __CPROVER_requires(repeated_length <= 1u + 258u * 2u + 257u && (repeated_length - 1) % 258 <= 115)
+#elif defined(DF_CC_SMALL)
+#define CC_SMALL __CPROVER_requires(repeated_length <= 1u + 258u * 2u + 257u)
+#else
+#define CC_SMALL
+#endif
+#define CC_ZB                                                                                      \
+        (8ull * (O_AVAIL - stream->avail_out) + BB.m_bit_count - 128u - (w_runbits - OLD(w_runbits)))
 #define C_write_constant_compressed_stateless                                                      \
         __CPROVER_requires(__CPROVER_is_fresh(stream, sizeof(*stream)))                            \
         __CPROVER_requires(repeated_length >= 1 && repeated_length <= stream->avail_in)            \
+        CC_SMALL                                                                                   \
         __CPROVER_requires(stream->end_of_stream <= 1)                                             \
         __CPROVER_requires(__CPROVER_is_fresh(stream->next_in, stream->avail_in))                  \
         __CPROVER_requires(__CPROVER_is_fresh(stream->next_out, stream->avail_out))                \
@@ -1195,8 +1299,18 @@ extern int g_lb_present;
         __CPROVER_assigns(stream->next_in, stream->avail_in, stream->total_in, stream->next_out,   \
                           stream->avail_out, stream->total_out, ST.state, ST.has_eob_hdr,          \
                           ST.has_eob, ST.block_end, BB, ST.crc, w_crc_init, w_crc_len, w_crc_buf,  \
-                          w_crc_calls, w_ad_init, w_ad_len, w_ad_buf, w_ad_calls,                  \
+                          w_crc_calls, w_ad_init, w_ad_len, w_ad_buf, w_ad_calls, w_cc_calls,      \
+                          w_cc_len, w_run, w_runbits, w_run_bad,                                   \
                           __CPROVER_object_whole(stream->next_out))                                \
+        /* what the block denotes: 1 byte (literal in the header) + 258 per pair of zero bits + the bytes  \
+         * denoted by the tail codes == the run.  The number of zero bits is what is left of the bits     \
+         * produced (8 * bytes out + pending) after the 128 header bits and the tail codes. */            \
+        __CPROVER_ensures(CC_FITS ==>                                                              \
+                          ((OLD(w_run_bad) == 0 ==> w_run_bad == 0) && CC_ZB % 2 == 0 &&           \
+                           1u + 258ull * (CC_ZB / 2) + (w_run - OLD(w_run)) == repeated_length))   \
+        __CPROVER_ensures(w_cc_calls == OLD(w_cc_calls) + 1 && w_cc_len == repeated_length)        \
+        __CPROVER_ensures(CC_FITS ==> BB_WF(BB))                                                   \
+        __CPROVER_ensures(!CC_FITS ==> (BB.m_bits == O_BITS && BB.m_bit_count == O_BC))            \
         __CPROVER_ensures(!CC_FITS ==>                                                             \
                           (ADV_IS(0) && stream->next_in == OLD(stream->next_in) &&                 \
                            stream->avail_in == O_AIN && stream->total_in == O_TIN &&               \
@@ -1224,6 +1338,307 @@ extern int g_lb_present;
                           (CK_CRC_CALLS == 0 && CK_AD_CALLS == 1 && w_ad_buf == OLD(stream->next_in) && \
                            w_ad_len == repeated_length && w_ad_init == SPEC_ADLER_FIN(O_CRC)))     \
         __CPROVER_ensures((CC_FITS && !TR_GZ && !TR_ZL) ==> (CK_CRC_CALLS == 0 && CK_AD_CALLS == 0))
+
+/* =====================================================================================================
+ * isal_deflate_int (C07/C10): staging through the 16-byte tmp_out_buff when the caller offers 1..7 bytes.
+ * The compression pass (isal_deflate_pass / isal_deflate_icf_pass -> NASM kernels) is an ASSUMED progress
+ * contract (-DDF_STAGING replaces the two proved/unproved pass contracts by it): it consumes some input,
+ * produces at most avail_out bytes into whatever [next_out, next_out + avail_out) it is given -- that
+ * range is its only memory frame -- keeps the counters consistent and leaves a non-TMP state.  Its
+ * preconditions are obligations of isal_deflate_int at both call sites:
+ *     no pass runs while staged bytes remain (state < ZSTATE_TMP_OFFSET and tmp_out_start == tmp_out_end).
+ * The stub records what each of the (at most two) calls was offered and what it left behind:
+ *     w_i{1,2}_off/avail/total  offered: offset of next_out in its object, avail_out, total_out
+ *     w_i2_tmp                  the second call's next_out is &state.tmp_out_buff[0]
+ *     w_a{1,2}, w_t2, w_s{1,2}  left: avail_out (call 1, 2), total_out (call 2), state (call 1, 2)
+ * Statement (entry values: S0 = state, pend = tmp_out_end - tmp_out_start, A0 = avail_out):
+ *  (a) S0 >= ZSTATE_TMP_OFFSET: D = min(pend, A0) staged bytes are handed out first, in order
+ *      (out[g] == tmp_out_buff[tmp_out_start + g]); if bytes remain, or no space remains, or the
+ *      un-offset state is ZSTATE_END, nothing else happens: no pass, tmp_out_start advanced by D, the
+ *      offset removed exactly when nothing remains;
+ *  (b) otherwise one pass runs on the caller's (remaining) buffer; if it leaves 0 < avail_out < 8 and a
+ *      state other than ZSTATE_NEW_HDR, a second pass is given exactly (tmp_out_buff, 16, total_out 0),
+ *      so it stages at most 16 bytes; min(staged, avail_out) of them are copied out in order, the caller's
+ *      next_out / avail_out / total_out advance by exactly the bytes copied, tmp_out_start/end describe
+ *      the rest and ZSTATE_TMP_OFFSET is added iff bytes remain;
+ *  (c) nothing outside [next_out, next_out + avail_out) of the caller is written (exact is_fresh size; the
+ *      stub's frame is the range it was offered); the code's assert(tmp_out_start == tmp_out_end) holds.
+ * ===================================================================================================== */
+extern uint32_t w_pcalls, w_i1_off, w_i1_avail, w_i1_total, w_i2_avail, w_i2_total, w_i2_tmp, w_a1, w_a2, w_t2,
+        w_s1, w_s2;
+#define TMP_OFF 12u /* ZSTATE_TMP_OFFSET = ZSTATE_TMP_HDR - ZSTATE_HDR */
+#define PS_K_OUT (OLD(stream->avail_out) - stream->avail_out)
+#define PS_K_IN (OLD(stream->avail_in) - stream->avail_in)
+#define PS_FIRST (OLD(w_pcalls) == 0)
+#define PS_SECOND (OLD(w_pcalls) == 1)
+#define STAGING_PASS_CONTRACT                                                                             \
+        __CPROVER_requires((uint32_t) ST.state < TMP_OFF && ST.tmp_out_start == ST.tmp_out_end)    \
+        __CPROVER_requires(w_pcalls <= 1)                                                          \
+        __CPROVER_assigns(stream->next_in, stream->avail_in, stream->total_in, stream->next_out,   \
+                          stream->avail_out, stream->total_out, ST.state, ST.count, ST.has_eob_hdr, \
+                          ST.has_eob, ST.has_hist, BB, ST.crc, ST.block_next, ST.block_end,        \
+                          ST.has_level_buf_init, ST.has_wrap_hdr,                                  \
+                          __CPROVER_object_upto(stream->next_out, stream->avail_out), w_pcalls,    \
+                          w_i1_off, w_i1_avail, w_i1_total, w_i2_avail, w_i2_total, w_i2_tmp, w_a1, \
+                          w_a2, w_t2, w_s1, w_s2)                                                  \
+        __CPROVER_ensures(w_pcalls == OLD(w_pcalls) + 1)                                           \
+        __CPROVER_ensures(stream->avail_in <= OLD(stream->avail_in) &&                             \
+                          stream->next_in == OLD(stream->next_in) + PS_K_IN &&                     \
+                          stream->total_in == OLD(stream->total_in) + PS_K_IN)                     \
+        __CPROVER_ensures(stream->avail_out <= OLD(stream->avail_out) &&                           \
+                          stream->total_out == OLD(stream->total_out) + PS_K_OUT)                  \
+        /* where next_out ends up is assumed only for a caller-owned buffer: for the staging call (next_out \
+         * inside the context itself) nothing is assumed -- isal_deflate_int overwrites it anyway.  (An      \
+         * equality that places the havocked field next_out inside the object that contains it is         \
+         * unsatisfiable for CBMC and would silently cut every path through the second call.)  The      \
+         * pointer is placed by pointer_in_range_dfcc (an assignment in assume context), so that the      \
+         * later memcpy through it resolves to the caller's buffer. */                                    \
+        __CPROVER_ensures(OLD(stream->next_out) != ST.tmp_out_buff ==>                             \
+                          (__CPROVER_pointer_in_range_dfcc(OLD(stream->next_out), stream->next_out, \
+                                                           OLD(stream->next_out) + OLD(stream->avail_out)) && \
+                           stream->next_out == OLD(stream->next_out) + PS_K_OUT))                  \
+        __CPROVER_ensures((uint32_t) ST.state <= ZSTATE_END)                                       \
+        __CPROVER_ensures(PS_FIRST ==>                                                             \
+                          (w_i1_off == (uint32_t) __CPROVER_POINTER_OFFSET(OLD(stream->next_out)) && \
+                           w_i1_avail == OLD(stream->avail_out) && w_i1_total == OLD(stream->total_out) && \
+                           w_a1 == stream->avail_out && w_s1 == (uint32_t) ST.state &&             \
+                           w_i2_avail == OLD(w_i2_avail) && w_i2_total == OLD(w_i2_total) &&       \
+                           w_i2_tmp == OLD(w_i2_tmp) && w_a2 == OLD(w_a2) && w_t2 == OLD(w_t2) &&  \
+                           w_s2 == OLD(w_s2)))                                                     \
+        __CPROVER_ensures(PS_SECOND ==>                                                            \
+                          (w_i2_tmp == (OLD(stream->next_out) == ST.tmp_out_buff ? 1u : 0u) &&     \
+                           w_i2_avail == OLD(stream->avail_out) && w_i2_total == OLD(stream->total_out) && \
+                           w_a2 == stream->avail_out && w_t2 == stream->total_out &&               \
+                           w_s2 == (uint32_t) ST.state && w_i1_off == OLD(w_i1_off) &&             \
+                           w_i1_avail == OLD(w_i1_avail) && w_i1_total == OLD(w_i1_total) &&       \
+                           w_a1 == OLD(w_a1) && w_s1 == OLD(w_s1)))
+/* harness split (each variant is a case of the same contract; together they cover every entry state):
+ *   DF_STAGING_DRAIN  entry in a TMP state where the drain ends the call (bytes remain, or no space remains, or
+ *                     the un-offset state is ZSTATE_END): the pass contract is requires(false), so "no pass runs"
+ *                     is proved at both call sites
+ *   DF_STAGING_TMP    entry in a TMP state, everything drained, space left: pass phase follows
+ *   DF_STAGING_RUN    entry in a non-TMP state */
+#define SG_NOW_PEND (ST.tmp_out_end - ST.tmp_out_start)
+#define SG_NOW_PH                                                                                  \
+        (SG_NOW_PEND < stream->avail_out && (uint32_t) ST.state - TMP_OFF != ZSTATE_END)
+#if defined(DF_STAGING_DRAIN)
+#define SG_SPLIT __CPROVER_requires((uint32_t) ST.state >= TMP_OFF && !SG_NOW_PH)
+#undef C_isal_deflate_pass
+#define C_isal_deflate_pass __CPROVER_requires(0) __CPROVER_assigns()
+#define C_isal_deflate_icf_pass __CPROVER_requires(0) __CPROVER_assigns()
+#elif defined(DF_STAGING_TMP)
+#define SG_SPLIT __CPROVER_requires((uint32_t) ST.state >= TMP_OFF && SG_NOW_PH)
+#elif defined(DF_STAGING_RUN)
+#define SG_SPLIT __CPROVER_requires((uint32_t) ST.state < TMP_OFF)
+#else
+#define SG_SPLIT
+#endif
+#if defined(DF_STAGING) && !defined(DF_STAGING_DRAIN)
+#undef C_isal_deflate_pass
+#define C_isal_deflate_pass STAGING_PASS_CONTRACT
+#define C_isal_deflate_icf_pass STAGING_PASS_CONTRACT
+#endif
+#define SG_TMP (O_ST >= TMP_OFF)
+#define SG_PEND (OLD(ST.tmp_out_end) - OLD(ST.tmp_out_start))
+#define SG_D (SG_TMP ? (SG_PEND < O_AVAIL ? SG_PEND : O_AVAIL) : 0u) /* drained first */
+/* the pass phase is entered */
+#define SG_PH (!SG_TMP || (SG_D == SG_PEND && O_AVAIL - SG_D > 0 && O_ST - TMP_OFF != ZSTATE_END))
+#define SG_STG (w_a1 > 0 && w_a1 < 8 && w_s1 != ZSTATE_NEW_HDR)      /* second pass into tmp_out_buff */
+#define SG_STAGED w_t2
+#define SG_COPIED (SG_STAGED < w_a1 ? SG_STAGED : w_a1)
+#define SG_CALLS (w_pcalls)
+#define SG_BYTE(k)                                                                                 \
+        __CPROVER_ensures((SG_PH && SG_STG && (k) < SG_COPIED) ==>                                 \
+                          OUT0[(O_AVAIL - w_a1) + (k)] == ST.tmp_out_buff[k])
+/* the byte clause of the staging copy is not closed within the resource budget (the copy out of the 16-byte
+ * array inside the 82 KiB context after a replaced pass): -DDF_STAGING_BYTES, not registered */
+#ifdef DF_STAGING_BYTES
+#define SG_BYTES SG_BYTE(0) SG_BYTE(1) SG_BYTE(2) SG_BYTE(3) SG_BYTE(4) SG_BYTE(5) SG_BYTE(6)
+#else
+#define SG_BYTES
+#endif
+#define C_isal_deflate_int                                                                         \
+        __CPROVER_requires(__CPROVER_is_fresh(stream, sizeof(*stream)))                            \
+        __CPROVER_requires(__CPROVER_is_fresh(stream->next_in, stream->avail_in))                  \
+        __CPROVER_requires(__CPROVER_is_fresh(stream->next_out, stream->avail_out))                \
+        SG_SPLIT                                                                                   \
+        __CPROVER_requires(w_pcalls == 0 && g_k < 16)                                              \
+        __CPROVER_requires((uint32_t) ST.state <= ZSTATE_TMP_END)                                  \
+        /* staged bytes exist exactly in the TMP states */                                         \
+        __CPROVER_requires((uint32_t) ST.state >= TMP_OFF ==>                                      \
+                           (ST.tmp_out_start < ST.tmp_out_end && ST.tmp_out_end <= 16))            \
+        __CPROVER_requires((uint32_t) ST.state < TMP_OFF ==> ST.tmp_out_start == ST.tmp_out_end)   \
+        __CPROVER_assigns(stream->next_in, stream->avail_in, stream->total_in, stream->next_out,   \
+                          stream->avail_out, stream->total_out, ST.state, ST.count, ST.has_eob_hdr, \
+                          ST.has_eob, ST.has_hist, BB, ST.crc, ST.block_next, ST.block_end,        \
+                          ST.has_level_buf_init, ST.has_wrap_hdr, ST.tmp_out_start, ST.tmp_out_end, \
+                          ST.tmp_out_buff, __CPROVER_object_whole(stream->next_out), w_pcalls,     \
+                          w_i1_off, w_i1_avail, w_i1_total, w_i2_avail, w_i2_total, w_i2_tmp, w_a1, \
+                          w_a2, w_t2, w_s1, w_s2)                                                  \
+        /* (a) drain */                                                                            \
+        __CPROVER_ensures((SG_TMP && g_k < SG_D) ==>                                               \
+                          OUT0[g_k] == OLD(ST.tmp_out_buff[(ST.tmp_out_start + g_k) & 15]))        \
+        __CPROVER_ensures((SG_TMP && !SG_PH) ==>                                                   \
+                          (SG_CALLS == 0 && ADV_IS(SG_D) && ST.tmp_out_start == OLD(ST.tmp_out_start) + SG_D && \
+                           ST.tmp_out_end == OLD(ST.tmp_out_end) &&                                \
+                           (uint32_t) ST.state == (SG_D == SG_PEND ? O_ST - TMP_OFF : O_ST)))      \
+        /* (b) first pass gets what is left of the caller's buffer */                              \
+        __CPROVER_ensures(SG_PH ==>                                                                \
+                          (SG_CALLS >= 1 && w_i1_off == SG_D && w_i1_avail == O_AVAIL - SG_D &&    \
+                           w_i1_total == O_TOTAL + SG_D && w_a1 <= w_i1_avail))                    \
+        __CPROVER_ensures((SG_PH && !SG_STG) ==>                                                   \
+                          (SG_CALLS == 1 && (uint32_t) ST.state == w_s1 && stream->avail_out == w_a1 && \
+                           ADV_IS(O_AVAIL - w_a1) && ST.tmp_out_start == ST.tmp_out_end))          \
+        /* second pass: exactly the staging buffer, from total_out 0 */                            \
+        __CPROVER_ensures((SG_PH && SG_STG) ==>                                                    \
+                          (SG_CALLS == 2 && w_i2_tmp == 1 && w_i2_avail == 16 && w_i2_total == 0 && \
+                           SG_STAGED <= 16 && ST.tmp_out_end == SG_STAGED &&                       \
+                           ST.tmp_out_start == SG_COPIED))                                         \
+        __CPROVER_ensures((SG_PH && SG_STG) ==>                                                    \
+                          (stream->avail_out == w_a1 - SG_COPIED &&                                \
+                           ADV_IS((O_AVAIL - w_a1) + SG_COPIED) &&                                 \
+                           (uint32_t) ST.state == w_s2 + (SG_STAGED > SG_COPIED ? TMP_OFF : 0u)))  \
+        /* at most 7 bytes are copied out (avail_out < 8): one clause per position */             \
+        SG_BYTES                                                                                   \
+        __CPROVER_ensures((SG_PH && SG_STG) ==> SG_COPIED <= 7)                                    \
+        /* well-formedness for the next call */                                                    \
+        __CPROVER_ensures((uint32_t) ST.state >= TMP_OFF ==>                                       \
+                          (ST.tmp_out_start < ST.tmp_out_end && ST.tmp_out_end <= 16 &&            \
+                           stream->avail_out == 0))                                                \
+        __CPROVER_ensures((uint32_t) ST.state < TMP_OFF ==> ST.tmp_out_start == ST.tmp_out_end)
+
+/* =====================================================================================================
+ * detect_repeated_char_length (C05/C10): length of the run of equal bytes at the start of the input.
+ * Call site (isal_deflate_int_stateless): avail_in >= 8 and the first eight bytes are all 0x00 or all 0xff;
+ * the function itself only needs them to be equal ("assumes the first 8 bytes are the same character").
+ * Result n: 8 <= n <= length, in[0..n) all equal in[0], and the run is maximal (n < length ==> in[n] != in[0]).
+ * Reads exactly inside [in, in + length) (exact is_fresh size; the word loop reads 8 bytes at a time).
+ * Stated for one ghost position g_k.
+ * ===================================================================================================== */
+#define RC_C (in[0])
+#define RC_W0 ((uint64_t) in[0] * 0x0101010101010101ull)
+#define RC_UNIFORM8                                                                                \
+        (in[1] == in[0] && in[2] == in[0] && in[3] == in[0] && in[4] == in[0] && in[5] == in[0] && \
+         in[6] == in[0] && in[7] == in[0])
+#define C_detect_repeated_char_length                                                              \
+        __CPROVER_requires(length >= 8 && __CPROVER_is_fresh(in, length) && RC_UNIFORM8)           \
+        __CPROVER_assigns()                                                                        \
+        __CPROVER_ensures((uint32_t) RET >= 8 && (uint32_t) RET <= length)                         \
+        __CPROVER_ensures(g_k < (uint32_t) RET ==> in[g_k] == RC_C)                                \
+        __CPROVER_ensures((uint32_t) RET < length ==> in[(uint32_t) RET] != RC_C)
+#define L_detect_repeated_char_length_1                                                            \
+        __CPROVER_assigns(p_64)                                                                    \
+        __CPROVER_loop_invariant(__CPROVER_same_object(p_64, in) &&                                \
+                                 __CPROVER_POINTER_OFFSET(p_64) <= (__CPROVER_size_t) length &&    \
+                                 __CPROVER_POINTER_OFFSET(p_64) % 8 == 0 && w == RC_W0 && c == RC_C && \
+                                 (g_k < __CPROVER_POINTER_OFFSET(p_64) ==> in[g_k] == RC_C))       \
+        __CPROVER_decreases((__CPROVER_size_t) length + 8 - __CPROVER_POINTER_OFFSET(p_64))
+#define H_detect_repeated_char_length_1 VCANARY();
+#define L_detect_repeated_char_length_2                                                            \
+        __CPROVER_assigns(p_8)                                                                     \
+        __CPROVER_loop_invariant(__CPROVER_same_object(p_8, in) &&                                 \
+                                 __CPROVER_POINTER_OFFSET(p_8) <= (__CPROVER_size_t) length &&     \
+                                 __CPROVER_POINTER_OFFSET(p_8) >= 8 && c == RC_C &&                \
+                                 (g_k < __CPROVER_POINTER_OFFSET(p_8) ==> in[g_k] == RC_C))        \
+        __CPROVER_decreases((__CPROVER_size_t) length - __CPROVER_POINTER_OFFSET(p_8))
+#define H_detect_repeated_char_length_2 VCANARY();
+
+/* =====================================================================================================
+ * isal_deflate_int_stateless (C10): the compression attempt of the one-shot call -- which step is taken when.
+ * Helpers through their contracts above (write_stream_header_stateless, detect_repeated_char_length,
+ * write_constant_compressed_stateless, write_deflate_header_unaligned_stateless [proved for
+ * deflate_hdr_count <= 31, used here for every count: -DDH_MAXCNT=327], reset_match_history); the pass itself
+ * (isal_deflate_pass / isal_deflate_icf_pass -> NASM) is an ASSUMED progress contract that counts its calls.
+ *   - a generic wrapper header (gzip_flag GZIP / ZLIB) comes first; if it does not fit: STATELESS_OVERFLOW,
+ *     nothing produced, nothing consumed, no pass;
+ *   - the constant-run fast path is taken at most once, and only for a run at the start of the input of at
+ *     least 8 equal bytes 0x00 / 0xff that is the whole input or at least MIN_REPEAT_LEN long -- the run
+ *     length passed on is exactly the maximal run;
+ *   - level 0 with a block header still to write: if the header does not fit: STATELESS_OVERFLOW before any
+ *     pass; otherwise history reset, then exactly one pass;
+ *   - COMP_OK iff the state afterwards is ZSTATE_END, or ZSTATE_NEW_HDR under FULL_FLUSH.
+ * ===================================================================================================== */
+#define PASS_SL_CONTRACT                                                                           \
+        /* one-shot level 0: the block header has been written before the pass is entered */       \
+        __CPROVER_requires(stream->level == 0 ==>                                                  \
+                           (ST.state != ZSTATE_NEW_HDR && ST.state != ZSTATE_HDR))                 \
+        __CPROVER_assigns(stream->next_in, stream->avail_in, stream->total_in, stream->next_out,   \
+                          stream->avail_out, stream->total_out, ST.state, ST.count, ST.has_eob_hdr, \
+                          ST.has_eob, ST.has_hist, BB, ST.crc, ST.block_next, ST.block_end,        \
+                          ST.has_level_buf_init, w_pcalls,                                         \
+                          __CPROVER_object_upto(stream->next_out, stream->avail_out))              \
+        __CPROVER_ensures(w_pcalls == OLD(w_pcalls) + 1)                                           \
+        __CPROVER_ensures(stream->avail_in <= OLD(stream->avail_in) &&                             \
+                          stream->next_in == OLD(stream->next_in) + PS_K_IN &&                     \
+                          stream->total_in == OLD(stream->total_in) + PS_K_IN)                     \
+        __CPROVER_ensures(stream->avail_out <= OLD(stream->avail_out) &&                           \
+                          stream->next_out == OLD(stream->next_out) + PS_K_OUT &&                  \
+                          stream->total_out == OLD(stream->total_out) + PS_K_OUT)                  \
+        __CPROVER_ensures((uint32_t) ST.state <= ZSTATE_END)
+#if defined(DF_INT_SL)
+#undef C_isal_deflate_pass
+#define C_isal_deflate_pass PASS_SL_CONTRACT
+#define C_isal_deflate_icf_pass PASS_SL_CONTRACT
+#endif
+#define IS_WRAPF (O_GZ == IGZIP_GZIP || O_GZ == IGZIP_ZLIB)
+#define IS_HDR_NOFIT (IS_WRAPF && !O_WRAP && O_AVAIL <= SH_LEN)
+#define IS_CC (w_cc_calls - OLD(w_cc_calls))
+#define IS_PC (w_pcalls - OLD(w_pcalls))
+#define IS_IN0 OLD(stream->next_in)
+#if defined(DF_INT_SL)
+#define C_isal_deflate_int_stateless                                                               \
+        __CPROVER_requires(__CPROVER_is_fresh(stream, sizeof(*stream)))                            \
+        LB_PRE                                                                                     \
+        __CPROVER_requires(RMH_MASK_OK && stream->level <= 3 && stream->hist_bits <= 15)           \
+        __CPROVER_requires(stream->end_of_stream <= 1 && stream->gzip_flag <= IGZIP_ZLIB_NO_HDR)   \
+        __CPROVER_requires(__CPROVER_is_fresh(HT, sizeof(struct isal_hufftables)) && HT_WF(HT) &&  \
+                           HT_FINAL(HT) && (HT->deflate_hdr_count > 0 || HT->deflate_hdr_extra_bits > 0)) \
+        __CPROVER_requires(BB_WF(BB))                                                              \
+        __CPROVER_requires(ST.state == ZSTATE_NEW_HDR || ST.state == ZSTATE_HDR)                   \
+        __CPROVER_requires((stream->gzip_flag == IGZIP_ZLIB || stream->gzip_flag == IGZIP_ZLIB_NO_HDR) ==> \
+                           (ST.crc & 0xffff) < 65521)                                              \
+        __CPROVER_requires(__CPROVER_is_fresh(stream->next_in, stream->avail_in))                  \
+        __CPROVER_requires(__CPROVER_is_fresh(stream->next_out, stream->avail_out))                \
+        __CPROVER_assigns(stream->next_in, stream->avail_in, stream->total_in, stream->next_out,   \
+                          stream->avail_out, stream->total_out, stream->gzip_flag, ST.state,       \
+                          ST.count, ST.has_eob_hdr, ST.has_eob, ST.has_hist, ST.has_wrap_hdr, BB,  \
+                          ST.crc, ST.block_next, ST.block_end, ST.has_level_buf_init, SB_TABLE_FRAME_IS, \
+                          w_pcalls, w_cc_calls, w_cc_len, w_run, w_runbits, w_run_bad, w_crc_init, \
+                          w_crc_len, w_crc_buf,                                                    \
+                          w_crc_calls, w_ad_init, w_ad_len, w_ad_buf, w_ad_calls,                  \
+                          __CPROVER_object_whole(stream->next_out))                                \
+        __CPROVER_ensures(RET == COMP_OK || RET == STATELESS_OVERFLOW)                             \
+        __CPROVER_ensures((RET == COMP_OK) ==                                                      \
+                          (IS_PC == 1 && (ST.state == ZSTATE_END ||                                \
+                                          (ST.state == ZSTATE_NEW_HDR && stream->flush == FULL_FLUSH)))) \
+        /* wrapper header first; no room for it: nothing happens */                                \
+        __CPROVER_ensures(IS_HDR_NOFIT ==>                                                         \
+                          (RET == STATELESS_OVERFLOW && ADV_IS(0) && stream->avail_in == O_AIN &&  \
+                           IS_PC == 0 && IS_CC == 0 && stream->gzip_flag == O_GZ))                 \
+        __CPROVER_ensures((IS_WRAPF && !IS_HDR_NOFIT && !O_WRAP) ==>                               \
+                          (ST.has_wrap_hdr == 1 &&                                                 \
+                           stream->gzip_flag == (O_GZ == IGZIP_ZLIB ? IGZIP_ZLIB_NO_HDR : IGZIP_GZIP_NO_HDR))) \
+        /* constant-run fast path */                                                               \
+        __CPROVER_ensures(IS_CC <= 1 && IS_PC <= 1)                                                \
+        __CPROVER_ensures(IS_CC == 1 ==>                                                           \
+                          (O_AIN >= 8 && w_cc_len >= 8 && w_cc_len <= O_AIN &&                     \
+                           (w_cc_len == O_AIN || w_cc_len >= MIN_REPEAT_LEN) &&                    \
+                           (IS_IN0[0] == 0x00 || IS_IN0[0] == 0xff) &&                             \
+                           (g_k < w_cc_len ==> IS_IN0[g_k] == IS_IN0[0]) &&                        \
+                           (w_cc_len < O_AIN ==> IS_IN0[w_cc_len] != IS_IN0[0])))                  \
+        /* input is only consumed forwards, output stays inside the space offered */                \
+        __CPROVER_ensures(stream->avail_in <= O_AIN &&                                             \
+                          stream->next_in == IS_IN0 + (O_AIN - stream->avail_in))                  \
+        __CPROVER_ensures(stream->avail_out <= O_AVAIL && ADV_IS(O_AVAIL - stream->avail_out))     \
+        /* levels 1..3 and a level-0 call whose block header went out: exactly one pass */          \
+        __CPROVER_ensures((!IS_HDR_NOFIT && stream->level >= 1) ==> IS_PC == 1)                    \
+        __CPROVER_ensures((stream->level == 0 && IS_PC == 0) ==> RET == STATELESS_OVERFLOW)
+#endif
+#if defined(DF_LVLN)
+#define SB_TABLE_FRAME_IS __CPROVER_object_whole(stream->level_buf)
+#else
+#define SB_TABLE_FRAME_IS ST.head
+#endif
 
 /* Variant A of the isal_deflate_stateless harness decides every path that does not enter the stored
  * fallback and does not reset the match history.  The helpers of those excluded paths are given the
